@@ -702,6 +702,72 @@ def c16(tier, replay):
     return run.finish()
 
 
+def odd_go_events(run, h, rng, n):
+    """C17, pure part: go lines with unknown tokens at the boundaries of their <keyword value> pairs, next to the same go
+    without them; TLC checks (by its own scan) that both are the same go and that the engine parsed and planned them alike."""
+    canon = ["go wtime 300 btime 300 movestogo 1", "go wtime 60000 btime 55000 winc 1000 binc 1000", "go btime 400 wtime 500 movestogo 4",
+             "go winc 50 binc 70 wtime 90 btime 80", "go wtime 200000 btime 100 movestogo 40", "go wtime 1000 btime 1000", "go movestogo 7 binc 3 winc 2 btime 5000 wtime 6000"]
+    unknown = [["ponder"], ["infinite"], ["foo"], ["searchmoves", "e2e4"], ["searchmoves", "e2e4", "d2d4", "g1f3"], ["depth", "5"], ["nodes", "1000"], ["mate", "3"],
+               ["movetime", "500"], ["depth"], ["xyzzy", "7", "q"], ["\u00e9"], ["Wtime", "9"], ["wtimes", "9"]]
+    items = []
+    for _ in range(n):
+        c = rng.choice(canon)
+        toks = c.split()
+        pairs = [toks[i:i + 2] for i in range(1, len(toks), 2)]
+        slots = list(range(len(pairs) + 1))
+        ins = {}
+        for _ in range(rng.randint(1, 3)):
+            ins.setdefault(rng.choice(slots), []).extend(rng.choice(unknown))
+        out = ["go"]
+        for i in range(len(pairs) + 1):
+            out += ins.get(i, [])
+            if i < len(pairs):
+                out += pairs[i]
+        items.append({"line": " ".join(out), "canon": c})
+    d = R.trace_dir("C17-oddgo")
+    json.dump(items, open(os.path.join(d, "in.json"), "w"))
+    vcommon.run_harness(h, ["slices", "--in", os.path.join(d, "in.json"), "--out", os.path.join(d, "all.ndjson")])
+    evs = [json.loads(l) for l in open(os.path.join(d, "all.ndjson"))]
+    nsh = 4
+    fs = [open(os.path.join(d, "uci%02d.ndjson" % i), "w") for i in range(nsh)]
+    for i, e in enumerate(evs):
+        if e.get("panic"):
+            if not e.get("canon_panic"):
+                run.violation("unknown-go-token-panics:" + e["line"].replace(" ", "_"), "the go parser panics on unknown tokens: " + e["line"], {"type": "oddgo", "line": e["line"]})
+            continue
+        fs[i % nsh].write(json.dumps(e) + "\n")
+    for f in fs:
+        f.close()
+    os.remove(os.path.join(d, "in.json"))
+    os.remove(os.path.join(d, "all.ndjson"))
+    results = vcommon.validate_shards("TraceUci", "TraceUci.cfg", sorted(glob.glob(os.path.join(d, "uci*.ndjson"))), env_extra={"OVERHEAD": str(OVERHEAD_MS)})
+    for r in results:
+        run.add("states", r["distinct"])
+        run.add("transitions", max(r["states"] - 1, 0))
+        for prop, line, code, detail in r["verdict"]["bad"]:
+            e = vcommon.read_event(r["file"], line)
+            if prop == "TOOL":
+                raise ToolError("odd go events: %s %s" % (code, detail))
+            if prop == "C17":
+                run.violation("%s:%s" % (code, e["line"].replace(" ", "_")), "%s: %s" % (code, detail), {"type": "oddgo", "line": e["line"]})
+            else:
+                run.foreign(prop, code, detail)
+    run.cov["go_lines_with_unknown_tokens_vs_canonical"] = len(evs)
+    shutil.rmtree(d, ignore_errors=True)
+
+
+def mangle(rng, line):
+    """the same command with surplus / odd whitespace (runs of blanks and tabs, leading and trailing, CR before the LF,
+    vertical tab and form feed as separators)"""
+    seps = [" ", "  ", "\t", " \t ", "   ", "\t\t", "\x0b", " \x0c "]
+    toks = line.split()
+    out = rng.choice(["", " ", "\t", "  "])
+    for i, tk in enumerate(toks):
+        out += tk
+        out += rng.choice(seps) if i + 1 < len(toks) else rng.choice(["", " ", "\t", "\r", " \r", "\x0b"])
+    return out
+
+
 def c17(tier, replay):
     run = mk("C17", tier, replay)
     if replay:
@@ -733,6 +799,16 @@ def c17(tier, replay):
             sessions.append(noisy + [{"do": "send", "line": cmd}, {"do": "send", "line": rng.choice(GARBAGE)},
                                      {"do": "go", "line": goline, "extra": {"probe": "g%d" % pi}}, {"do": "isready"}])
             shard.append(pi)
+    # the probe written with surplus / odd whitespace must give the reply of the plainly written one (same probe id)
+    wsp = []
+    for pi, sess in [(shard[i], sessions[i]) for i in range(len(sessions)) if len(sessions[i]) == 4 and sessions[i][1].get("do") == "isready"][:nprobe]:
+        cmd, goline = sess[0]["line"], sess[3]["line"]
+        wsp.append((pi, [{"do": "isready", "line": mangle(rng, "isready")}, {"do": "send", "line": mangle(rng, cmd)}, {"do": "isready", "line": mangle(rng, "isready")},
+                         {"do": "go", "line": mangle(rng, goline), "extra": {"probe": "g%d" % pi}}, {"do": "isready", "line": "isready\x0b"}]))
+    for pi, sess in wsp:
+        sessions.append(sess)
+        shard.append(pi)
+    run.cov["commands_with_odd_whitespace"] = len(wsp)
     # unknown tokens inside go
     for g in GO_ODD:
         sessions.append([{"do": "send", "line": rng.choice(live)}, {"do": "go", "line": g}, {"do": "isready"}, {"do": "quit"}])
@@ -782,6 +858,7 @@ def c17(tier, replay):
                          {"do": "go_nowait", "line": rng.choice(["go wtime 1100 btime 1100 movestogo 1", "go wtime 475 btime 475 movestogo 1"])},
                          {"do": "gone", "pause_ms": 1, "wait_ms": 4000}])
         shard.append(rng.randint(0, 1000))
+    odd_go_events(run, h, rng, 150 if q else 3000)
     plan(h, sessions)
     logs = run_sessions(binary, sessions, 8)
     sample_session(run, sessions[1], logs[1])
